@@ -209,7 +209,13 @@ pub fn explain_why_not(relation: &str, target: &Tuple, ctx: &ProofContext<'_>) -
                     }
                     BodyPredicate::Negated(ref atom) => {
                         let bound = substitute_atom(atom, &current_bindings);
-                        let matches = find_matching_tuples(&atom.relation, &bound, ctx.base_data);
+                        // The negated fact may be stored or derived: look in both.
+                        let mut matches = find_matching_tuples(&atom.relation, &bound, ctx.base_data);
+                        if matches.is_empty() {
+                            if let Some(derived_data) = ctx.derived_data {
+                                matches = find_matching_tuples(&atom.relation, &bound, derived_data);
+                            }
+                        }
 
                         if !matches.is_empty() {
                             // Negation FAILED (tuple exists that shouldn't)
